@@ -108,6 +108,8 @@ def model(ops, dl, icvn, lx):
 def check_case(case):
     import pyx12.segment
     import pyx12.x12file
+    if case.get('via_xml') and case['ops'][:case['prefix']]:
+        return check_via_xml(case)
     out = core.Outcome()
     dl = case['delims']
     ops = case['ops'][:case['prefix']]
@@ -198,6 +200,72 @@ def check_case(case):
             out.fail('reader-envelope-error', 'pyx12 reader reports %r on the written text' % errs)
     except Exception as e:
         out.fail(core.exc_bucket(e, 'reread'), core.exc_detail(e))
+    return out
+
+
+def check_via_xml(case):
+    """The same histories through the XML-to-X12 converter, which feeds an X12Writer: the XML of a file that stops early has no
+    trailers to offer, the converter has to close what is open."""
+    import tempfile
+    import pyx12.xmlx12_simple
+    from xml.sax.saxutils import escape
+    out = core.Outcome()
+    ops = case['ops'][:case['prefix']]
+    lx = bool(case.get('lx'))
+    meta = case.get('meta', {})
+    out.classes = list(meta.get('classes', [])) + ['via-xml-converter']
+    out.nontrivial = True
+    out.key = ['xml', ops]
+    xml = ['<?xml version="1.0"?>\n<x12simple>\n']
+    for op in ops:
+        sid, els = parse_canon(op)
+        xml.append('<seg id="%s">' % sid)
+        for i, e in enumerate(els):
+            e = [_literal(c) for c in e]
+            if len(e) == 1:
+                if e[0] != '' or sid == 'ISA':
+                    xml.append('<ele id="%s%02d">%s</ele>' % (sid, i + 1, escape(e[0])))
+            else:
+                xml.append('<comp id="%s%02d">' % (sid, i + 1) + ''.join('<subele id="%s%02d-%02d">%s</subele>' % (sid, i + 1, j + 1, escape(c))
+                                                                            for j, c in enumerate(e) if c != '') + '</comp>')
+        xml.append('</seg>\n')
+    xml.append('</x12simple>\n')
+    fd, tmp = tempfile.mkstemp(prefix='vpx_c11_', suffix='.xml')
+    buf = io.StringIO()
+    try:
+        with os.fdopen(fd, 'w', encoding='utf-8') as fh:
+            fh.write(''.join(xml))
+        try:
+            pyx12.xmlx12_simple.convert(tmp, buf)
+        except Exception as e:
+            out.fail(core.exc_bucket(e, 'xml-converter'), core.exc_detail(e))
+            return out
+    finally:
+        os.unlink(tmp)
+    text = buf.getvalue()
+    try:
+        d, segs = x12ref.tokenize(text)
+    except x12ref.NotX12:
+        out.fail('xml-converter:not-an-interchange', text[:120])
+        return out
+    icvn = '00501' if '*00501*' in ops[0] else '00401'
+    dl = {'term': d['term'], 'ele': d['ele'], 'sub': d['sub'], 'rep': d.get('rep') or '^'}
+    # (the converter does not renumber LX: it is the caller of the writer that asks for that)
+    exp = [(sid, x12ref.trim([[_literal(c) for c in e] for e in els])) for sid, els in model(ops, dl, icvn, False)]
+    got = [(s.id, s.trimmed()) for s in segs]
+    if got != exp:
+        i = 0
+        while i < min(len(got), len(exp)) and got[i] == exp[i]:
+            i += 1
+        g = got[i] if i < len(got) else None
+        e = exp[i] if i < len(exp) else None
+        kind = 'trailer' if (e and e[0] in ('SE', 'GE', 'IEA')) or (g and g[0] in ('SE', 'GE', 'IEA')) else 'segment'
+        out.fail('xml-converter:output-differs:%s:%s' % (kind, (e or g)[0]), 'segment #%d: wrote %r, model says %r' % (i, g, e))
+        return out
+    flat = [(s.id, [d['sub'].join(e) if s.id != 'ISA' else e[0] for e in s.elems]) for s in segs]
+    aud = envmodel.audit(flat)
+    if aud:
+        out.fail('xml-converter:audit', 'independent recount of the converted text: %r' % aud)
     return out
 
 
@@ -314,6 +382,7 @@ def strategy(tier):
                 classes.add('closed-at-prefix')
         # keep well-nestedness of the prefix: an omitted inner trailer followed by a header at a lower level is still nested
         return {'ops': ops, 'prefix': prefix, 'lx': lx, 'src_delims': src, 'dest': draw(st.sampled_from(['stream', 'stream', 'stream', 'path'])),
+                'via_xml': draw(st.integers(0, 6)) == 0,
                 'delims': {'term': term, 'ele': ele, 'sub': sub, 'rep': rep, 'eol': eol},
                 'meta': {'classes': sorted(classes)}}
 
